@@ -168,6 +168,17 @@ def check_rows(E: Engine, rep: Report, rule: str, rows: list[dict], source: str 
                             if not g:
                                 found_wrong.append((line, a, "limit compared without a dominating `is not None` guard (an undefined limit would raise TypeError instead of constraining nothing; a truthiness test is not enough where 0 is a legal limit: it would switch the limit off)"))
                                 continue
+                        # the limit applies whatever the *other* optional limits are: a conjunction that also requires an
+                        # unrelated `<other limit> is not None` switches this check off on channels that lack that other limit
+                        unrelated = [
+                            l2 for l2 in conj
+                            if l2.atom is not None and l2.atom.rel == "IsNot" and "const:None" in l2.atom.rhs.roots
+                            and any(r.startswith("self.") for r in l2.atom.lhs.roots)
+                            and not any(l2.atom.lhs.has_root(r) for r in list(row["limit"]) + list(row["quantity"]))
+                        ]
+                        if unrelated and not row.get("allow_unrelated_guard"):
+                            found_wrong.append((line, a, f"the check is only made when `{unrelated[0].show()}` -- an unrelated optional limit: on a channel without that limit this one is not enforced"))
+                            continue
                         found_ok = (line, a, conj)
                     else:
                         complement = NEGATE.get(row["rel"]) == a.rel and not lit_is_raise_guard(conj, lit)
